@@ -233,6 +233,9 @@ impl NodeMon for C01 {
         rep.max("max_slots_used", slots);
         rep.max("slot_capacity", gen.verif_capacity() as u64);
         rep.max("max_legal_moves", want.len() as u64);
+        // representation-independent pressure measure (men with a legal move + e.p. captures), used by the coverage gate:
+        // a library that lays its move list out differently must not make this check inconclusive
+        rep.max("max_model_slots", model_slots(n.p, &want) as u64);
         if n.ply == 0 {
             rep.sample(format!("{} -> {} legal moves: {}", fen, want.len(), moves_str(&want)));
         }
